@@ -93,6 +93,16 @@ func opsOnExpr(e influxql.Expr, now time.Time) []func() string {
 		},
 		func() string { return runOp("ContainsVarRef", func() { _ = influxql.ContainsVarRef(e) }) },
 		func() string {
+			return runOp("RewriteExpr(identity)/HasTimeExpr", func() {
+				c := influxql.CloneExpr(e)
+				r := influxql.RewriteExpr(c, func(x influxql.Expr) influxql.Expr { return x })
+				if r != nil {
+					_ = r.String()
+				}
+				_ = influxql.HasTimeExpr(e)
+			})
+		},
+		func() string {
 			return runOp("ConjunctionsToExprSlice", func() {
 				_ = influxql.ExprsToConjunction(influxql.ConjunctionsToExprSlice(e)...)
 			})
@@ -228,6 +238,19 @@ func propOpsTotal(args []string) string {
 		},
 		func() string {
 			return runOp("Query.String", func() { _ = (&influxql.Query{Statements: influxql.Statements{stmt}}).String() })
+		},
+		// the generic rewriter with the identity, on the statement and on a query holding it (round-3 seeded
+		// change C13-3: new cases of Rewrite asserted a nil condition to Expr); run last of the
+		// statement-level operations: Rewrite re-assigns the children in place
+		func() string {
+			return runOp("RewriteFunc(identity)", func() {
+				before := stmt.String()
+				influxql.RewriteFunc(stmt, func(n influxql.Node) influxql.Node { return n })
+				influxql.RewriteFunc(&influxql.Query{Statements: influxql.Statements{stmt}}, func(n influxql.Node) influxql.Node { return n })
+				if after := stmt.String(); after != before {
+					panic("the identity rewrite changed the statement: " + before + " -> " + after)
+				}
+			})
 		},
 	}
 	if s := selectOf(stmt); s != nil {
